@@ -71,7 +71,7 @@ CACHE_REPLACEMENTS = {
     "half_obj": b'{"version": "0.18.1", "uuid": "x", ',
 }
 # kinds derived from the current cache content (see World.op_cache_replace)
-CACHE_DERIVED = ("stale_tail", "doubled", "bom")
+CACHE_DERIVED = ("stale_tail", "doubled", "bom", "marker_torn", "marker_garbage")
 
 JSON_KINDS = {
     "null": None,
